@@ -52,7 +52,7 @@ def py_kwargs(case):
             kw[k] = float(case[k])
     if case.get("psi") is not None:
         p = case["psi"]
-        kw["psi"] = p if isinstance(p, int) else tuple(p)
+        kw["psi"] = p if isinstance(p, int) else (list(p) if case.get("psi_list") else tuple(p))
     if case.get("inner", "sq") == "abs":
         kw["inner_dist"] = inner_name(case)
     if case.get("max_dist_I") is not None:
